@@ -110,6 +110,29 @@ impl Runner {
         let chain = plan.chain;
         let suggested_parts = plan.suggested_partitions;
 
+        #[cfg(feature = "verif-hooks")]
+        {
+            let kinds: Vec<String> = chain
+                .iter()
+                .map(|n| match n {
+                    Node::Source { .. } => "Source".to_string(),
+                    Node::Stateless(ops) => format!("Stateless{}", ops.len()),
+                    Node::GroupByKey { .. } => "GroupByKey".to_string(),
+                    Node::CombineValues { local_groups, .. } => {
+                        if local_groups.is_some() {
+                            "CombineValues+lifted".to_string()
+                        } else {
+                            "CombineValues".to_string()
+                        }
+                    }
+                    Node::CoGroup { .. } => "CoGroup".to_string(),
+                    Node::CombineGlobal { .. } => "CombineGlobal".to_string(),
+                    Node::Materialized(_) => "Materialized".to_string(),
+                })
+                .collect();
+            crate::verif_hooks::on_plan(&kinds);
+        }
+
         #[cfg(feature = "checkpointing")]
         let checkpoint_enabled = self.checkpoint_config.as_ref().is_some_and(|c| c.enabled);
 
